@@ -22,11 +22,11 @@ META = {
              "sample values; distinct = (alphabet, multiset, order, v)."),
     "assumptions": ["integer counting with numpy comparisons is the reference", "samples are finite (no NaN): the property's domain"],
     "deciding": ["stats.greater_equal_ecdf", "stats.less_equal_ecdf"],
-    "exhaustive_tiers": {"quick": {"multisets size<=7 over 6 letters": 1715, "value alphabets": 5, "orders": 3, "queries": 13},
-                         "thorough": {"multisets size<=7 over 6 letters": 1715, "value alphabets": 5, "orders": 3, "queries": 13}},
+    "exhaustive_tiers": {"quick": {"multisets size<=7 over 6 letters": 1715, "value alphabets": 6, "orders": 3, "queries": 13},
+                         "thorough": {"multisets size<=7 over 6 letters": 1715, "value alphabets": 6, "orders": 3, "queries": 13}},
 }
 
-META["added"] = 'Added: unsigned and narrow integer dtypes, a preallocated sample buffer queried, refilled in place and queried again, non-numeric results scored as violations (not monitor errors).'
+META["added"] = 'Added: unsigned and narrow integer dtypes, a preallocated sample buffer queried, refilled in place and queried again, non-numeric results scored as violations (not monitor errors). int64 values beyond 2**53 with integer queries.'
 MANIFEST = {
     "technique": "runtime post-conditions on the real ecdf functions (all call sites) vs integer counting; exhaustive small multisets + random heavy-tie samples",
     "level_text": "All 1715 multisets of size<=7 over 6 letters x 4 value alphabets x 3 orders x 13 query positions are enumerated completely (exhaustive for that sub-space) through the real functions under an exact counting oracle, plus 10^3 (quick) / 10^5 (thorough) random large samples; sum and monotonicity identities checked per sample.",
@@ -46,8 +46,11 @@ ALPHABETS = {
     "neg": [-5.5, -4.0, -2.5, -1.0, -0.5, -0.0],
     "mixed": [-1e9, -1e-9, 0.0, 1e-9, 1.0, 1e9],
     "uint": [0, 1, 2, 3, 4, 5],          # stored in unsigned dtypes (event counts often are)
+    # integers beyond 2**53: neighbouring values are closer than the float64 spacing there, so any detour through floats merges them
+    "bigint": [2 ** 53, 2 ** 53 + 1, 2 ** 53 + 3, 2 ** 53 + 4, 2 ** 53 + 6, 2 ** 53 + 7],
 }
-DTYPES = {"int": ["int64", "int32"], "uint": ["uint64", "uint8", "uint32"], "real": ["float64", "float32x"], "neg": ["float64"], "mixed": ["float64"]}
+BIG_GAPS = [2 ** 53 + 2, 2 ** 53 + 5, 2 ** 53 + 2, 2 ** 53 + 5, 2 ** 53 + 2]
+DTYPES = {"bigint": ["int64"], "int": ["int64", "int32"], "uint": ["uint64", "uint8", "uint32"], "real": ["float64", "float32x"], "neg": ["float64"], "mixed": ["float64"]}
 
 
 def _stats():
@@ -137,9 +140,9 @@ def install(ctx):
             return
         if not _valid_sample(x):
             return
-        vals_a = numpy.asarray(vals, dtype=float)
+        vals_a = numpy.asarray(vals)                     # in their own dtype: integer queries beyond 2**53 must not pass through floats
         xs = numpy.asarray(x)
-        ref = numpy.array([numpy.sum(xs <= v) / float(xs.shape[0]) for v in vals_a])
+        ref = numpy.array([numpy.sum(xs <= v) / float(xs.shape[0]) for v in vals_a.tolist()])
         case = {"exec": "binned", "args": {"x": xs[:2000], "vals": vals_a}}
         if exc is not None:
             ctx.violate("binned_ecdf-raised", case, observed=repr(exc), tags={"caller": caller})
@@ -207,6 +210,8 @@ def run(ctx):
                 queries = list(alpha) + [(alpha[i] + alpha[i + 1]) / 2.0 for i in range(5)] + [alpha[0] - 1.0, alpha[-1] + 1.0]
                 if aname == "mixed":
                     queries[-2:] = [-2e9, 2e9]
+                if aname == "bigint":
+                    queries = list(alpha) + BIG_GAPS + [alpha[0] - 1, alpha[-1] + 1]          # integer queries only
                 orders = [vals, vals[::-1], [vals[i] for i in rng.permutation(size)]]
                 for oi, xv in enumerate(orders):
                     dts = DTYPES[aname]
@@ -215,7 +220,7 @@ def run(ctx):
                         dt = "float64"          # float32 samples would change the values themselves; kept as float64
                     xa = numpy.asarray(xv, dtype=dt)
                     for qi, q in enumerate(queries):
-                        qq = q if (aname not in ("int", "uint") or qi >= 6) else int(q)
+                        qq = q if (aname not in ("int", "uint", "bigint") or qi >= 6) else int(q)
                         ctx.call(stats.greater_equal_ecdf, xa, qq)
                         ctx.call(stats.less_equal_ecdf, xa, qq)
                         ctx.call(stats.get_quantiles, xa if oi else xa.tolist(), qq)
@@ -234,13 +239,13 @@ def run(ctx):
                         for fill in (xv, [alpha[(ms[i] + 1 + i % 2) % 6] for i in range(size)], xv[::-1]):
                             buf[:] = fill
                             for qq in (queries[0], queries[6], queries[3]):
-                                qq = qq if aname not in ("int", "uint") else (int(qq) if float(qq) == int(qq) else qq)
+                                qq = qq if aname not in ("int", "uint", "bigint") else (int(qq) if (isinstance(qq, int) or float(qq) == int(qq)) else qq)
                                 ctx.call(stats.greater_equal_ecdf, buf, qq)
                                 ctx.call(stats.less_equal_ecdf, buf, qq)
                                 ctx.call(stats.get_quantiles, buf, qq)
                             ctx.mon("history:buffer-refilled-in-place", 1)
                         sample_identities(ctx, xa, queries, aname)
-                        ctx.call(stats.binned_ecdf, xa, numpy.array(sorted(queries)))
+                        ctx.call(stats.binned_ecdf, xa, numpy.array(sorted(set(queries))))     # "vals must be monotonically increasing and unique"
                         ctx.count(1)
             if ci % 97 == 0:
                 ctx.sample({"multiset_letters": ms, "alphabet": "all 4", "orders": "sorted/reversed/shuffled",
